@@ -11,8 +11,9 @@
 (*            hdr p r q t   read_txn_header at p: r = ok | undone (next    *)
 (*                          position q, id t) | eof | err                  *)
 (*            scan p q      scan from p returned q (-1: did not return)    *)
-(*            copy same     tpc_finish; same: the output transaction is    *)
-(*                          identical to the input transaction read        *)
+(*            copy same whole  tpc_finish; same: the output transaction is *)
+(*                          identical to the input transaction read;       *)
+(*                          whole: it has as many records                  *)
 (*            abort         tpc_abort                                      *)
 (*            end | hang | crash   how recover() ended                     *)
 (* Every event must be a step of ZRecoverTool (the action named by the     *)
@@ -53,7 +54,7 @@ Act(e) ==
     [] e.k = "hdr" /\ e.r = "eof" -> pos = e.p /\ HeaderEOF
     [] e.k = "hdr" /\ e.r = "err" -> pos = e.p /\ HeaderError
     [] e.k = "scan"  -> pos = e.p /\ e.q >= 0 /\ Scan(e.q)
-    [] e.k = "copy"  -> CopyOk(e.same)
+    [] e.k = "copy"  -> CopyOk(e.same, e.whole)
     [] e.k = "abort" -> CopyFail
     [] e.k = "crash" -> Crash
     [] e.k \in {"end", "hang"} -> FALSE
@@ -61,7 +62,7 @@ Act(e) ==
 Why(e) == IF e.k = "hdr" THEN "hdr-" \o e.r
           ELSE IF e.k = "scan" /\ e.q < 0 THEN "scan-hang"
           ELSE IF e.k = "scan" /\ e.q > 0 /\ e.q <= pos THEN "scan-backwards"
-          ELSE IF e.k = "copy" THEN (IF e.same THEN "copy-same" ELSE "copy-altered")
+          ELSE IF e.k = "copy" THEN (IF e.same THEN "copy-same" ELSE IF e.whole THEN "copy-altered" ELSE "copy-cut")
           ELSE e.k
 
 Step ==
@@ -76,6 +77,7 @@ Final ==
   /\ LET ph == IF Ev.k = "die" THEN (IF ENABLED NotAFileStorage THEN "done" ELSE "not-die") ELSE phase
          why == IF ph # "done" THEN "ended-in-" \o ph
                 ELSE IF ~(OnlyInput(out) /\ Ordered(out)) THEN "not-an-ordered-subsequence-of-the-input"
+                ELSE IF ~WholeTransactions(out) THEN "transaction-emitted-without-all-its-records"
                 ELSE IF ~UntouchedUnchanged(F, out) THEN "undamaged-transaction-altered"
                 ELSE IF ~PrefixBeforeDamageRecovered(F, out) THEN "transaction-before-the-damage-lost"
                 ELSE IF ~UndamagedIdentical(F, out) THEN "undamaged-file-not-identical"
